@@ -64,10 +64,18 @@ def job_main(scen_name, job, rec_path, deadline):
             outcome, exc = 'harness-error', "%s: %s | %s" % (
                 type(e).__name__, e, traceback.format_exc()[-1200:])
         except Exception as e:
+            if _raised_in_harness(e):
+                outcome, exc = 'harness-error', "%s: %s | %s" % (type(e).__name__, e, traceback.format_exc()[-1200:])
+                raise_harness = True
+            else:
+                raise_harness = False
             # a library exception the scenario did not expect: violation candidate
             key = 'unexpected-exception:%s' % type(e).__name__
+            if raise_harness:
+                key = None
             try:
-                E.check(False, key, key=key, info=traceback.format_exc()[-800:])
+                if key is not None:
+                    E.check(False, key, key=key, info=traceback.format_exc()[-800:])
             except BaseException as e2:
                 outcome, exc = 'harness-error', repr(e2)
         except BaseException as e:
@@ -89,6 +97,16 @@ def job_main(scen_name, job, rec_path, deadline):
                                     'exc': traceback.format_exc()[-1500:]}) + "\n")
         finally:
             os._exit(8)
+
+
+def _raised_in_harness(e):
+    """the innermost frame of the traceback is harness code (scen/, symx/), not the library or the dependency"""
+    tb = e.__traceback__
+    last = None
+    while tb is not None:
+        last = tb.tb_frame.f_code.co_filename
+        tb = tb.tb_next
+    return bool(last) and os.path.realpath(last).startswith(os.path.realpath(ROOT) + os.sep)
 
 
 _SRC = os.path.realpath(os.path.join(os.environ.get('QUANTITY_SRC') or '/repo/src', 'quantity')) + os.sep
@@ -400,7 +418,12 @@ def _main(prop, tier, seed, scen_name, scratch, t0, only):
     tasks = []
     replay_index = {}
     for key, lst in viol.items():
-        picks = lst[:2] if len(lst) <= 2 else [lst[0], lst[len(lst) // 2], lst[-1]]
+        # prefer counterexamples whose model can be built in the requested input kinds
+        good = [x for x in lst if not (x[2].get('model') or {}).get('_unrepresentable')]
+        pool = good or lst
+        picks = pool[:2] if len(pool) <= 2 else [pool[0], pool[len(pool) // 2], pool[-1]]
+        if good and len(good) > 3:
+            picks.append(good[len(good) // 4])
         for (ji, rec, ob) in picks:
             tid = 'replay:%d' % len(tasks)
             tasks.append({'id': tid, 'scen': scen_name, 'fn': jobs[ji]['fn'],
